@@ -37,13 +37,12 @@ structure GSt where
   wire : List Bytes := []
   dead : Bool := false
 
-/-- the bytes of `buffer` that `Send` really puts into the queue: all of it on success; in stream
-mode the part appended to the last segment even when the call then fails with −2 (see notes/C01.md:
-this is a defect of the raw API, unreachable through sessions) -/
+/-- the bytes of `buffer` that `Send` puts into the queue: all of it on success, nothing when the
+call is refused (−1 empty buffer, −2 more than 255 segments).  Before the repair of defect F2 a
+stream-mode `Send` refused with −2 had already appended the head of the buffer to the last queued
+segment; now a refusal leaves the state untouched (`C01_send_refusal_takes_nothing`). -/
 def sendTaken (k : Kcp) (buffer : Bytes) : Bytes :=
-  if (send k buffer).ret = 0 then buffer
-  else if (send k buffer).ret = -2 then buffer.take (sendExt k buffer)
-  else []
+  if (send k buffer).ret = 0 then buffer else []
 
 def step (s : GSt) (op : Op) : GSt :=
   if s.dead then s else
